@@ -305,41 +305,8 @@ def oracle(req_, impl):
     return None
 
 
-MAGIC2 = [ord(c) for c in "#\\#CIF_2.0"]
-G2_CLASS = "G2: CIF 1.1 input, a chunk of the character source ends in a quote character"
-
-
-def chunk_ends(n, cuts):
-    """offsets at which the character source ends a chunk (as harness/x_fills.c parse_cuts), the end of the input excluded"""
-    ends, pos = [], 0
-    if cuts == "-":
-        return ends
-    if cuts.startswith("*"):
-        k = int(cuts[1:])
-        while pos + k < n:
-            pos += k
-            ends.append(pos)
-        return ends
-    for k in map(int, cuts.split(",")):
-        if pos + k < n:
-            pos += k
-            ends.append(pos)
-    return ends
-
-
 def finding_class(req_, impl, model, why):
-    t = req_.split(" ")
-    if len(t) < 4 or t[1] not in ("P", "q") or impl.startswith(("SAN:", "CRASH:", "TIMEOUT")):
-        return None
-    doc = unhexs(t[2])
-    is_v2 = doc[:10] == MAGIC2 and (len(doc) == 10 or doc[10] in (32, 9, 10, 13))
-    if is_v2:
-        return None
-    try:
-        if any(doc[e - 1] in (0x22, 0x27) for e in chunk_ends(len(doc), t[3])):
-            return G2_CLASS
-    except Exception:
-        pass
+    # no open finding.  Repaired: G1 (three leading CRs; /repo a8669bf), G2 (stale `top` in scan_delim_string; /repo e9c24e1)
     return None
 
 
